@@ -17,6 +17,7 @@
 (*   new_prop(h,n,c,card) h = Property(name=n, parent=c, val_cardinality=.)*)
 (*   create_sec(h,c,n)    h = c.create_section(n)                          *)
 (*   create_prop(h,c,n)   h = c.create_property(n)                         *)
+(*   create_prop_badvals(h,c,n)  the same with values the library refuses  *)
 (***************************************************************************)
 EXTENDS OdmlWorld
 
@@ -107,6 +108,7 @@ Post(w, op) ==
     [] op.name = "new_prop" -> CtorPost(w, op.h, "prop", op.n, op.c, op.card)
     [] op.name = "create_sec"  -> CtorPost(w, op.h, "sec", op.n, op.c, "none")
     [] op.name = "create_prop" -> CtorPost(w, op.h, "prop", op.n, op.c, "none")
+    [] op.name = "create_prop_badvals" -> Refuse(w)        \* values that cannot be stored (mixed types): no Property appears
     [] OTHER -> {}
 
 (***************************************************************************)
